@@ -117,3 +117,21 @@ func decoratorFactory(w *vw.World, cfg *vw.CtlConfig) (vw.Controller, error) {
 	}
 	return newDecoratorAdapter(w, cfg)
 }
+
+// ---- vw.EventSink ----
+
+func (a *decoratorAdapter) ParentAdd(obj any)         { a.c.enqueueParentObject(obj) }
+func (a *decoratorAdapter) ParentUpdate(old, cur any) { a.c.updateParentObject(old, cur) }
+func (a *decoratorAdapter) ParentDelete(obj any)      { a.c.enqueueParentObject(obj) }
+func (a *decoratorAdapter) ChildAdd(obj any)          { a.c.onChildAdd(obj) }
+func (a *decoratorAdapter) ChildUpdate(old, cur any)  { a.c.onChildUpdate(old, cur) }
+func (a *decoratorAdapter) ChildDelete(obj any)       { a.c.onChildDelete(obj) }
+func (a *decoratorAdapter) RelatedAdd(obj any)        { a.c.customize.VerifOnRelatedAdd(obj) }
+func (a *decoratorAdapter) RelatedUpdate(old, cur any) {
+	a.c.customize.VerifOnRelatedUpdate(old, cur)
+}
+func (a *decoratorAdapter) RelatedDelete(obj any) { a.c.customize.VerifOnRelatedDelete(obj) }
+func (a *decoratorAdapter) ParseKey(key string) (string, string, error) {
+	_, _, ns, name, err := splitParentQueueKey(key)
+	return ns, name, err
+}
